@@ -201,16 +201,26 @@ func identText(n ast.Node) string {
 	return "?"
 }
 
+// optName is the option name AS SPELLED (a leading dot of an extension name is kept): the
+// formatter sorts file options by their printed name and the sort is stable, so the k-th
+// option statement with a given spelling is the same declaration before and after formatting.
+// (Two spellings of one option, "(a.b)" and "(.a.b)", may be exchanged - recorded finding
+// same-option-spelled-two-ways, judged on the descriptors; the comments travel with their
+// statements, which is what "attached to the same declaration" asks for.)
 func optName(o *ast.OptionNode) string {
 	var sb strings.Builder
 	for i, p := range o.Name.Parts {
 		if i > 0 {
 			sb.WriteByte('.')
 		}
+		name := identText(p.Name)
+		if ci, ok := p.Name.(*ast.CompoundIdentNode); ok && ci.LeadingDot != nil {
+			name = "." + name
+		}
 		if p.Open != nil {
-			sb.WriteString("(" + identText(p.Name) + ")")
+			sb.WriteString("(" + name + ")")
 		} else {
-			sb.WriteString(identText(p.Name))
+			sb.WriteString(name)
 		}
 	}
 	return sb.String()
